@@ -1,4 +1,5 @@
 import ComposeVerif.Lemmas.PathsOrigin
+import ComposeVerif.Lemmas.PathsDir
 import ComposeVerif.Lemmas.AuditCmd
 /-!
 # C12 — the right directory anchors a path: per-origin base directories of the loader
@@ -101,5 +102,58 @@ theorem include_extends_origin (k : Nat) (cfg : Cfg) (isDir : Str → Bool) (p f
   simp only [predict, stagesOf, includeLevel, extendsLevel, List.nil_append, List.cons_append, List.singleton_append, if_true]
   rw [applyStages_three k cfg _ _ cfg.wd s (abs_ne_nil _ hW) hl1.1 hl1.2.1 hl2.1 hl2.2.1 hhome]
   rw [← join_assoc _ _ _ (abs_ne_nil _ hW) hl1.1 hl1.2.1, hl1.2.2, hl2.2.2]
+
+/-- **`Dir(Join(W, f)) = Join(W, Dir(f))`** for a relative `f` whose last element is a real name -/
+theorem dir_commutes_with_join (W f : Str) (I : List Str) (last : Str) (hW : W ≠ []) (hf : isAbs f = false)
+    (hsplit : splitSlash f = I ++ [last]) (hlast : Norm last) : dir (join W f) = join W (dir f) :=
+  dir_join W f I last hW hf hsplit hlast
+
+example : splitSlash ['e', '/', 'b', '.', 'y'] = [['e']] ++ [['b', '.', 'y']] ∧ Norm ['b', '.', 'y'] :=
+  ⟨by decide, by decide, by decide, by decide⟩
+
+/-- `extends_origin` phrased with the absolute file: the base is `Dir` of the extended file -/
+theorem extends_origin_dir (k : Nat) (cfg : Cfg) (isDir : Str → Bool) (f s : Str) (I : List Str) (last : Str)
+    (hW : isAbs cfg.wd = true) (hf : isAbs f = false) (hsplit : splitSlash f = I ++ [last]) (hlast : Norm last)
+    (hfile : isDir (absIn cfg.wd f) = false) (hhome : ∀ h, cfg.home = some h → h ≠ []) :
+    predict k cfg isDir [.ext f] true s = resolveKind k { cfg with wd := dir (absIn cfg.wd f) } s := by
+  rw [extends_origin k cfg isDir f s hW hfile hhome]
+  have hdf : isAbs (dir f) = false := by unfold dir; rw [isAbs_clean, isAbs_dirPrefix]; exact hf
+  have e : clean (absIn cfg.wd (dir f)) = dir (absIn cfg.wd f) := by
+    simp only [absIn, hdf, hf, Bool.false_eq_true, if_false]
+    rw [dir_join cfg.wd f I last (abs_ne_nil _ hW) hf hsplit hlast, join_of_ne _ _ (abs_ne_nil _ hW)]
+    exact clean_idem _
+  rw [e]
+
+/-- **an extended file that itself extends from a third directory** (`extends2`): `f1` is written in the main file,
+`f2` in the file `f1`; the inner reference is first rebased by `absExtendsPath`, then its file is resolved ONCE against
+its own directory — which is `Dir` of `f2` taken from the directory of `f1` -/
+theorem extends2_origin (k : Nat) (cfg : Cfg) (isDir : Str → Bool) (f1 f2 s : Str) (I : List Str) (last : Str)
+    (hW : isAbs cfg.wd = true) (hfile1 : isDir (absIn cfg.wd f1) = false)
+    (hf2 : isAbs f2 = false) (hf2ne : f2 ≠ []) (hf2t : tilde f2 = false) (hrem : cfg.remote f2 = false)
+    (hsplit : splitSlash f2 = I ++ [last]) (hlast : Norm last)
+    (hfile2 : isDir (absIn cfg.wd (joinWd (loaderDir isDir cfg.wd f1) f2)) = false)
+    (hhome : ∀ h, cfg.home = some h → h ≠ []) :
+    predict k cfg isDir [.ext f1, .ext f2] true s =
+      resolveKind k { cfg with wd := dir (join (clean (absIn cfg.wd (dir f1))) f2) } s := by
+  have hWne := abs_ne_nil _ hW
+  have hl1 := loaderDir_of_file isDir cfg.wd f1 hW hfile1
+  -- the rebased reference
+  have hreb : absExtendsStr { cfg with wd := loaderDir isDir cfg.wd f1 } f2 = joinWd (loaderDir isDir cfg.wd f1) f2 := by
+    simp only [absExtendsStr, hrem, Bool.false_eq_true, if_false]
+    exact absPathStr_relative _ f2 hf2 hf2ne hf2t
+  have hg_rel : isAbs (joinWd (loaderDir isDir cfg.wd f1) f2) = false := by
+    rw [isAbs_joinWd]; exact isAbs_join_rel _ _ hl1.1 hl1.2.1
+  have hl2 := loaderDir_of_file isDir cfg.wd (joinWd (loaderDir isDir cfg.wd f1) f2) hW hfile2
+  obtain ⟨I', hsp'⟩ := splitSlash_joinWd_last (loaderDir isDir cfg.wd f1) f2 I last hl1.1 hl1.2.1 hsplit hlast
+  have hdg : isAbs (dir (joinWd (loaderDir isDir cfg.wd f1) f2)) = false := by
+    unfold dir; rw [isAbs_clean, isAbs_dirPrefix]; exact hg_rel
+  have ebase : clean (absIn cfg.wd (dir (joinWd (loaderDir isDir cfg.wd f1) f2))) =
+      dir (join (clean (absIn cfg.wd (dir f1))) f2) := by
+    simp only [absIn, hdg, Bool.false_eq_true, if_false]
+    rw [← dir_join cfg.wd _ I' last hWne hg_rel hsp' hlast, clean_dir, join_joinWd _ _ _ hWne,
+      ← join_assoc _ _ _ hWne hl1.1 hl1.2.1, hl1.2.2]
+    simp only [absIn]
+  simp only [predict, stagesOf, extendsLevel, hreb, List.nil_append, List.cons_append, List.singleton_append, if_true]
+  rw [applyStages_two k cfg _ cfg.wd s hWne hl2.1 hl2.2.1 hhome, hl2.2.2, ebase]
 
 end CV.Paths
